@@ -5,6 +5,7 @@ from engine.shape import STAR, poll_outcome, is_ready_ok
 from .common import reachable_local_fns
 from .shape_common import (classify, find_cell_accessors, run_jobs, cmp_sites_for, server_chains, chain_name)
 
+EXTRA_CONFIGS = ('default', 'tokio1', 'serde1', 'serde-transport')   # feature configurations re-analysed in the thorough tier
 META = {
     'level': 'other',
     'technique': 'static exit-state analysis with the shape walker: small automata recording the last outcome of each queue / stream / timer / flush, evaluated at every way the entry point can return a terminal value',
